@@ -130,7 +130,7 @@ class X12Base(object):
             if seg_data.get_value('HL02') != '':
                 hl_parent = self._int(seg_data.get_value('HL02'))
                 if hl_parent not in self.hl_stack:
-                    err_str = 'HL parent ({:d}) is not a valid parent'.format(hl_parent)
+                    err_str = 'HL parent ({}) is not a valid parent'.format(seg_data.get_value('HL02'))
                     self._seg_error('HL2', err_str)
                 while self.hl_stack and hl_parent != self.hl_stack[-1]:
                     del self.hl_stack[-1]
@@ -207,7 +207,7 @@ class X12Base(object):
         """
         try:
             return int(str_val)
-        except ValueError:
+        except (ValueError, TypeError):
             return None
         return None
 
